@@ -49,7 +49,8 @@ REAL = ["pox.openflow.of_01.Connection.read / OpenFlow_01_Task.run",
         "libopenflow_01 unpackers"]
 STUBBED = ["socket/select/time/pinger (simkit)", "the sending peer (scripted)"]
 EXPECT_PROBES = ["side_ctl", "side_sw", "cut_inside_header", "cut_inside_body",
-                 "cut_at_boundary", "dribble", "big_message", "coalesced"]
+                 "cut_at_boundary", "dribble", "big_message", "coalesced",
+                 "stream_starts_with_handshake_end"]
 
 PORT = {"port_no": 1, "hw_addr": F.mac(9), "name": "p1", "config": 0,
         "state": 0}
@@ -234,7 +235,10 @@ def gen_plan(seed, tier):
                            (1, r.randint(500, 6000))]))
   cfg = {"side": side, "recv_mode": r.pick(["all", "all", "choose",
                                              "dribble"]),
-         "shuffle_ready": r.chance(0.3)}
+         "shuffle_ready": r.chance(0.3),
+         # the stream under test begins with the message that ends the
+         # handshake (so later messages may share its recv())
+         "join_handshake": side == "ctl" and r.chance(0.35)}
   if huge and cfg["recv_mode"] == "dribble":
     cfg["recv_mode"] = "choose"     # 64 KiB one byte per cycle: too slow
   # steps: one per message (so the minimiser can drop messages); cuts are
@@ -297,10 +301,55 @@ def run_plan(plan):
   return res
 
 
+def _boot_ctl(sim, cfg):
+  """controller world with one handshaken peer; with cfg.join_handshake the
+  handshake stops before its last message (the barrier reply), which is
+  returned to be sent as the first message of the stream under test"""
+  world = CTLWorld(sim)
+  world.boot()
+  peer = world.new_peer()
+  sim.settle()
+  first = []
+  if cfg.get("join_handshake"):
+    peer.send(W.enc_hello(0))
+    sim.drain()
+    fr = [d for d in peer.take() if d["type"] == W.FEATURES_REQUEST]
+    ok = bool(fr)
+    if ok:
+      peer.send(W.enc_features_reply(fr[0]["xid"], 0x42, [PORT]))
+      sim.drain()
+      br = [d for d in peer.take() if d["type"] == W.BARRIER_REQUEST]
+      ok = bool(br)
+    if ok:
+      first = [W.enc_barrier_reply(br[0]["xid"])]
+      sim.probes["stream_starts_with_handshake_end"] += 1
+  else:
+    ok = handshake_script(peer, 0x42, [PORT])
+  if not ok:
+    # the handshake consists of well-formed messages too: if one of them
+    # arrived completely and no handler ran for it, that is a framing
+    # failure; anything else is not this property's business
+    sim.drain()
+    got = [t for t, x, n in world.delivered.get(peer.con_id, [])] \
+        if peer.con_id is not None else []
+    sent_types = [d[1] for d in _frames_of(bytes(peer.sock.accepted))]
+    for i, t in enumerate(sent_types):
+      if got[:i + 1] != sent_types[:i + 1]:
+        raise Violation("ctl/missing", "handshake message #%d (type=%d) "
+                        "arrived completely but was not delivered "
+                        "(delivered types %r)" % (i, t, got))
+    raise S.SimAbort("harness", "handshake did not complete")
+  return world, peer, first
+
+
 def _drive(sim, plan):
   cfg = plan["cfg"]
   side = cfg["side"]
   msgs = [bytes.fromhex(s["m"]) for s in plan["steps"]]
+  world = peer = None
+  if side == "ctl":
+    world, peer, first = _boot_ctl(sim, cfg)
+    msgs = first + msgs
   stream = b"".join(msgs)
   total = len(stream)
   cuts = sorted(set(int(round(c * total)) for c in plan.get("cuts", [])))
@@ -330,26 +379,9 @@ def _drive(sim, plan):
     sim.probes["dribble"] += 1
 
   if side == "ctl":
-    world = CTLWorld(sim)
-    world.boot()
-    peer = world.new_peer()
-    sim.settle()
-    if not handshake_script(peer, 0x42, [PORT]):
-      # the handshake consists of well-formed messages too: if one of them
-      # arrived completely and no handler ran for it, that is a framing
-      # failure; anything else is not this property's business
-      sim.drain()
-      got = [t for t, x, n in world.delivered.get(peer.con_id, [])] \
-          if peer.con_id is not None else []
-      sent_types = [d[1] for d in _frames_of(bytes(peer.sock.accepted))]
-      for i, t in enumerate(sent_types):
-        if got[:i + 1] != sent_types[:i + 1]:
-          raise Violation("ctl/missing", "handshake message #%d (type=%d) "
-                          "arrived completely but was not delivered "
-                          "(delivered types %r)" % (i, t, got))
-      raise S.SimAbort("harness", "handshake did not complete")
     con = peer.con
     base = len(world.delivered[con.ID])
+    ebase = len(world.events)
 
     def delivered():
       return [(t, x) for t, x, _ in world.delivered[con.ID][base:]]
@@ -411,6 +443,17 @@ def _drive(sim, plan):
     have = delivered()
     if have != want:
       _explain(have, want, arrived, total, side)
+    if side == "ctl":
+      # the same, one level up: what the connection announced to listeners
+      ev_of = {W.PACKET_IN: "PacketIn", W.PORT_STATUS: "PortStatus",
+               W.FLOW_REMOVED: "FlowRemoved"}
+      want_ev = [ev_of[t] for t, x in want if t in ev_of]
+      have_ev = [name for src, name, cid, info in world.events[ebase:]
+                 if src == con.ID and name in ev_of.values()]
+      if have_ev != want_ev:
+        raise Violation("ctl/events", "after %d of %d bytes the connection "
+                        "has raised %r; the completely arrived messages call "
+                        "for %r" % (arrived, total, have_ev, want_ev))
     tail_start = max([e for e in ends if e <= arrived] or [0])
     if residual() != stream[tail_start:arrived]:
       raise Violation(side + "/residual", "after %d of %d bytes the receive "
